@@ -39,7 +39,10 @@ WhyRaster(c, o) ==
          THEN "raster-voxels"
     ELSE IF o.saved_ok # 1 THEN "raster-save-load-differs"
     ELSE ""
-Why(c, o) == IF o.err # "" THEN "raised-" \o o.err ELSE IF c.kind = "io" THEN WhyIO(c, o) ELSE WhyRaster(c, o)
+\* saving / rasterising reads its argument: the caller's array (tree) is the same afterwards
+Why(c, o) == IF o.err # "" THEN "raised-" \o o.err
+             ELSE LET w == IF c.kind = "io" THEN WhyIO(c, o) ELSE WhyRaster(c, o) IN
+                  IF w # "" THEN w ELSE IF o.pure # 1 THEN c.kind \o "-argument-modified" ELSE ""
 VARIABLES l, bad
 Init == l = 0 /\ bad = <<>>
 Next == /\ l < Len(Obs)
